@@ -144,8 +144,9 @@ def sink_rule(repo, res, ty, rule="SINK"):
     res.floor("SINK-text-holes", n_text, 5)
 
 
-def automaton_of_state(term_text):
-    return "sub" if ".subdfas.lookup(" in term_text else ("outer" if "param#2(dfa)" in term_text or "(dfa)" in term_text else "?")
+def automaton_of_state(term_text, dfa_param=(2,)):
+    # the outer automaton is do_to_dot's `&DFA` parameter (by position in the signature, not by name)
+    return "sub" if ".subdfas.lookup(" in term_text else ("outer" if any(f"param#{i}(" in term_text for i in dfa_param) else "?")
 
 
 def sites_through_helpers(repo, fn, envs):
@@ -209,7 +210,7 @@ def nodeid_rule(repo, res, ty, rule="NODEID"):
                 once = t.startswith("Off<") and not t.startswith("Off<Off<")
                 res.check(once, rule, key + ":base", f"node id state `{what}` : {t}" + (" (array base added once)" if once else ": the state must carry `+ array_start` exactly once, or the dump numbers states differently from the emitted script"), loc)
                 p_auto = "outer" if re.fullmatch(r"param#\d+\((\w+)\)", pt) and re.fullmatch(r"param#\d+\((\w+)\)", pt).group(1) in prefix_param else ("sub" if pt.startswith("format!(") else "?")
-                s_auto = automaton_of_state(st)
+                s_auto = automaton_of_state(st, dfa_param)
                 res.check(p_auto == s_auto and p_auto != "?", rule, key + ":scope", f"prefix {pt[:40]} names the {p_auto} automaton, state {st[:70]} belongs to the {s_auto} automaton" + ("" if p_auto == s_auto else ": the node id mixes two automata (an edge would point at a node of the wrong cluster)"), loc)
     res.floor(rule, n, 6)
 
@@ -250,7 +251,7 @@ def cluster_rule(repo, res, ty, rule="CLUSTERID"):
     if fa is not None:
         ea = A.collect_envs(fa)
         for c in P.find_calls(fa.body, methods={"to_dot"}):
-            if len(c["args"]) == 2 and c["recv"]["k"] == "Path" and c["recv"]["path"] == "dfa":
+            if len(c["args"]) == 2 and c["recv"]["k"] == "Path" and "DFA::" in A.show(A.resolve(c["recv"], ea.get(id(c)))):
                 p = A.show(A.resolve(c["recv"], ea.get(id(c))))
                 ok = p.endswith(".minimize()")
                 # and it is the same value the emitters get
@@ -288,7 +289,7 @@ def arms_rule(repo, res, rule="ARMS"):
         # and that value is what to_dot receives
         envs = A.collect_envs(fn)
         for c in P.find_calls(fn.body, methods={"to_dot"}):
-            if len(c["args"]) == 2 and c["recv"]["k"] == "Path" and c["recv"]["path"] == "dfa":
+            if len(c["args"]) == 2 and c["recv"]["k"] == "Path" and "DFA::" in A.show(A.resolve(c["recv"], envs.get(id(c)))):
                 p = A.show(A.resolve(c["args"][1], envs.get(id(c))))
                 ok = "ARRAY_START" in p or "match" in p.lower() or (helper is not None and helper.name + "(" in p)
                 res.check(ok, rule, f"{rule}:main::aot:to_dot-arg", f"dfa.to_dot(.., {p[:80]})", f"{fn.file}:{c['l']}")
@@ -319,7 +320,7 @@ def label_rule(repo, res, rule="LABEL"):
                             if s is None:
                                 continue
                             tpl = "".join(("\x00" + (p[1] or "") + "\x01") if p[0] == "hole" else p[1] for p in s.pieces)
-                            if re.search(r"\x00node_dot_id\x01\[label=", tpl):
+                            if re.search(r"\x00[^\x01]*\x01\[label=", tpl):  # `<node id>[label=` whatever the id's local is called
                                 labels.append(m)
                     rets = [m for m in A.walk(a["body"]) if m["k"] == "Return"]
                     first = min(((m["l"], m["c"]) for m in labels), default=None)
